@@ -686,6 +686,7 @@ impl World for WorldG {
                 break;
             }
             ctx.step = i;
+            ex.sim.permissive_next = false;
             let eff = match op {
                 GOp::Resubmit { k } => {
                     if ex.history.is_empty() {
